@@ -256,26 +256,17 @@ void TensorCopy(tensor* asrc, tensor** adst)
     }
   }
   else{
-    if(asrc->order != (*adst)->order){
-      /* resize  the order */
-      (*adst)->m = xrealloc((*adst)->m, sizeof(tensor*)*asrc->order);
+    /* release the old blocks and rebuild the destination with the shape of the source */
+    for(k = 0; k < (*adst)->order; k++){
+      DelMatrix(&((*adst)->m[k]));
     }
+    xfree((*adst)->m);
 
-    /*chek and resize the matrix for each order if is necessary */
+    (*adst)->order = asrc->order;
+    (*adst)->m = xmalloc(sizeof(matrix*)*asrc->order);
     for(k = 0; k < asrc->order; k++){
-      if(asrc->m[k]->row != (*adst)->m[k]->row || asrc->m[k]->col != (*adst)->m[k]->col){
-
-        (*adst)->m[k]->row = asrc->m[k]->row;
-        (*adst)->m[k]->col = asrc->m[k]->col;
-
-        (*adst)->m[k]->data = xrealloc((*adst)->m[k]->data, sizeof(double*)*asrc->m[k]->row);
-
-        for(i = 0; i < asrc->m[k]->row; i++){
-          (*adst)->m[k]->data[i] = xrealloc((*adst)->m[k]->data[i], sizeof(double)*asrc->m[k]->col);
-        }
-      }
+      NewMatrix(&((*adst)->m[k]), asrc->m[k]->row, asrc->m[k]->col);
     }
-
   }
 
   /*copy the data...*/
